@@ -150,3 +150,69 @@ Definition forwarded (conf : list dir) (tbl : matchtable) (q : request) : fwd :=
           end
       end
   end.
+
+(* ---------------------------------------------------------------- header modifications *)
+
+(* "$http_<name>": lower case, dashes as underscores *)
+Definition http_var_name (h : string) : string :=
+  Str.string_of (map (fun c => if Ascii.eqb c "-"%char then "_"%char else c) (Str.chars_of (lower h))).
+
+Definition request_header (q : request) (norm : string) : string :=
+  match find (fun hv => seqb (http_var_name (fst hv)) norm) (q_headers q) with Some hv => snd hv | None => "" end.
+
+(* the value of a proxy_set_header argument for this request. The generator writes literals and "${<var>}<value>" where <var>
+   is defined by  map ${http_<name>} $<var> { default ''; ~.* ${http_<name>},; }  - NGINX tries the regular expressions of a map
+   only for a non-empty source value, so <var> is "<request value>," when the request has the header and "" otherwise. *)
+Definition header_arg_value (conf : list dir) (q : request) (v : string) : option string :=
+  if has_prefix "${" v then
+    match find_sub "}" v with
+    | None => None
+    | Some i =>
+        let var := take (i - 2) (drop 2 v) in
+        let rest := drop (S i) v in
+        match find (fun d => match rev (d_args d) with x :: _ => seqb x ("$" ++ var)%string | [] => false end) (dirs_named "map" conf) with
+        | None => None
+        | Some m =>
+            match d_args m with
+            | src :: _ =>
+                (* src is ${http_<name>} *)
+                if has_prefix "${http_" src && has_suffix "}" src then
+                  let norm := take (String.length src - 8) (drop 7 src) in
+                  let entries := block_of m in
+                  let shape_ok :=
+                    existsb (fun e => seqb (d_name e) "default" && (seqb (first_arg e) "" || seqb (first_arg e) "''")) entries &&
+                    existsb (fun e => seqb (d_name e) "~.*" && seqb (first_arg e) (src ++ ",")%string) entries &&
+                    Nat.eqb (List.length entries) 2 in
+                  if shape_ok then
+                    let rv := request_header q norm in
+                    Some ((if seqb rv "" then "" else rv ++ ",") ++ rest)%string
+                  else None
+                else None
+            | [] => None
+            end
+        end
+    end
+  else Some v.
+
+(* what the upstream receives for header [n] because of the location's proxy_set_header / grpc_set_header directives:
+   inl = not mentioned by the location (the request's own header passes), inr None = suppressed, inr (Some v) = sent as v;
+   a name set twice, or a value of an unknown form, is reported as an error string *)
+Definition upstream_header (conf : list dir) (q : request) (loc : dir) (n : string) : (unit + option string) + string :=
+  let ds := dirs_named "proxy_set_header" (block_of loc) ++ dirs_named "grpc_set_header" (block_of loc) in
+  match filter (fun d => match d_args d with x :: _ => seqb (lower x) (lower n) | [] => false end) ds with
+  | [] => inl (inl tt)
+  | [d] =>
+      match d_args d with
+      | [_; v] => match header_arg_value conf q v with
+                  | Some s => inl (inr (if seqb s "" then None else Some s))
+                  | None => inr ("a header value of an unknown form: " ++ v)%string
+                  end
+      | _ => inr "set_header without two arguments"
+      end
+  | _ => inr ("the header is set twice in one location: " ++ n)%string
+  end.
+
+(* response side: (name, value) pairs added, names hidden *)
+Definition response_headers (loc : dir) : list (string * string) * list string :=
+  (flat_map (fun d => match d_args d with n :: v :: _ => [(n, v)] | _ => [] end) (dirs_named "add_header" (block_of loc)),
+   map first_arg (dirs_named "proxy_hide_header" (block_of loc))).
